@@ -57,6 +57,7 @@ class Ctx:
         self.pos = 0
         self.notes = {}
         self.fresh = 0
+        self.decided = {}       # term id -> bool: conditions already fixed on this path
 
 
 CTX = None
@@ -106,6 +107,11 @@ def decide(term):
     c = CTX
     if c is None:
         raise RuntimeError('symbolic branch outside explore()')
+    tid = term.get_id()
+    if tid in c.decided:
+        return c.decided[tid]
+    if z3.is_not(term) and term.arg(0).get_id() in c.decided:
+        return not c.decided[term.arg(0).get_id()]
     if c.pos < len(c.decisions):
         val = c.decisions[c.pos][0]
     else:
@@ -132,6 +138,7 @@ def decide(term):
         STATS['decisions'] += 1
     c.pos += 1
     c.pc.append(term if val else z3.Not(term))
+    c.decided[tid] = val
     return val
 
 
